@@ -44,6 +44,7 @@ SHAPES = [
     ("100", "100", "100", "100", "300"),    # 16 three units of liquidity at a volume limit of 1%
     ("100", "110", "90", "100", "250"),     # 17 2.5 units at 1%
     ("100", "100", "100", "100", "1000"),   # 18 ten units at 1%
+    ("33.37", "33.37", "33.37", "33.37", "100000"),  # 19 awkward price, ample volume
 ]
 
 
@@ -157,7 +158,9 @@ def make_exchange(cfg, dispatcher):
         def cond(isym, req=None):
             return lending.MarginLoanConditions(
                 interest_symbol=isym, interest_percentage=D(str(lend.get("pct", 10))),
-                interest_period=period * STEP, min_interest=D(str(lend.get("minint", 0))),
+                interest_period=(datetime.timedelta(microseconds=lend["period_us"]) if lend.get("period_us")
+                                 else period * STEP),  # period_us: a period that is not a whole number of steps
+                min_interest=D(str(lend.get("minint", 0))),
                 margin_requirement=D(str(lend["req"] if req is None else req)))
         isym = lend.get("isym", "USD")
         quote = lend.get("quote", "USD")  # the symbol the margin account is valued in
@@ -206,7 +209,15 @@ def unit(cfg):
 
 
 class Snapshot:
-    __slots__ = ("bal", "orders", "loans", "open_ids", "open_by_pair", "closed_ids", "nevents", "close")
+    __slots__ = ("bal", "orders", "loans", "open_ids", "open_by_pair", "closed_ids", "nevents", "close", "open_entries",
+                 "filtered", "single_bal", "loan_reads")
+
+
+# Which extra read-only API calls a snapshot makes (set per property by checks/_exch_common.py): "orders": every
+# get_orders(pair, is_open) filter combination and the fields of get_open_orders() entries; "balances": get_balance(symbol);
+# "loans": get_loan(id) and every get_loans(borrowed_symbol, is_open) combination. None of them walks the open-order list more
+# often than the plain snapshot does (the re-index phase of a state does not depend on this setting).
+DEEP_READS = set()
 
 
 class World:
@@ -231,6 +242,7 @@ class World:
         self.cancelled = set()  # indices of orders whose cancellation succeeded
         self.last_kind = None
         self.results = []       # per action: None or the class name of what it raised
+        self.harness_traversals = 0  # walks of the open-order list caused by the harness's own snapshots
         _ids.reset()
 
     # ---- observation through the public API
@@ -240,12 +252,52 @@ class World:
         s.bal = {k: (v.available, v.hold, v.borrowed, v.total) for k, v in call(e.get_balances()).items()}
         s.orders = {o.id: o for o in call(e.get_orders())}
         s.loans = {lo.id: lo for lo in call(e.get_loans())}
-        s.open_ids = [o.id for o in call(e.get_open_orders())]
-        s.open_by_pair = [[o.id for o in call(e.get_open_orders(pair=p))] for p in PAIRS[:self.npairs]]
+        self.harness_traversals = getattr(self, "harness_traversals", 0) + 1 + self.npairs
+        s.open_entries = list(call(e.get_open_orders()))
+        s.open_ids = [o.id for o in s.open_entries]
+        by_pair = [list(call(e.get_open_orders(pair=p))) for p in PAIRS[:self.npairs]]
+        s.open_by_pair = [[o.id for o in lst] for lst in by_pair]
         s.closed_ids = [o.id for o in call(e.get_orders(is_open=False))]
         s.nevents = len(self.evq)
         s.close = dict(self.close)
+        s.filtered = s.single_bal = s.loan_reads = None
+        if "orders" in DEEP_READS:
+            for lst in by_pair:
+                s.open_entries.extend(lst)
+            s.filtered = {}
+            for pi in [None] + list(range(self.npairs)):
+                for flag in (None, True, False):
+                    if pi is None and flag is not True:
+                        continue  # get_orders() and get_orders(is_open=False) are read above
+                    kw = {} if pi is None else dict(pair=PAIRS[pi])
+                    if flag is not None:
+                        kw["is_open"] = flag
+                    s.filtered[(pi, flag)] = [info_key(o) for o in call(e.get_orders(**kw))]
+        if "balances" in DEEP_READS:
+            s.single_bal = {}
+            for sym in sorted(set(s.bal) | {"USD", "BTC", "XRP"}):
+                v = call(e.get_balance(sym))
+                s.single_bal[sym] = (v.available, v.hold, v.borrowed, v.total)
+        if "loans" in DEEP_READS:
+            s.loan_reads = dict(single={}, filtered={})
+            for lid in s.loans:
+                s.loan_reads["single"][lid] = loan_key(call(e.get_loan(lid)))
+            for sym in (None, "USD", "BTC", "ETH"):
+                for flag in (None, True, False):
+                    if sym is None and flag is None:
+                        continue
+                    kw = {} if sym is None else dict(borrowed_symbol=sym)
+                    if flag is not None:
+                        kw["is_open"] = flag
+                    s.loan_reads["filtered"][(sym, flag)] = [loan_key(lo) for lo in call(e.get_loans(**kw))]
         return s
+
+    def pre_read(self):
+        """What a strategy that looks at its account before acting does: read-only calls, made on the state an action is
+        about to be applied to. Read-only calls must not influence anything (e.g. through values cached per instant)."""
+        if self.cfg.get("lend"):
+            call(self.e.get_loans())
+            call(self.e.get_balances())
 
     # ---- one action
     def apply(self, a):
@@ -384,10 +436,22 @@ class World:
         lrest = tuple(sorted((x for x in others if x is not None), key=repr))
         cont = om._orders
         stale = sum(1 for it in cont._open_items if not it.is_open)
-        reindex = (cont._reindex_counter % cont._reindex_every, stale)
+        # the phase a REBUILT world (no snapshots) has after the same history; in a search no history is long enough to reach
+        # a re-index (every 50 walks) - re-indexing is explored by the lasso runs
+        reindex = (cont._reindex_counter - self.harness_traversals, stale)
         closes = tuple(sorted(self.close.items()))
         # (whether the last action was a bar decides if a same-timestamp bar may follow)
         return (bal, referenced, rest, lref, lrest, closes, reindex, self.t > 0, self.last_kind in ("bar", "bar="))
+
+
+def info_key(o):
+    return (o.id, o.is_open, o.operation, o.amount, o.amount_filled, o.amount_remaining, o.quote_amount_filled,
+            tuple(sorted(o.fees.items())), o.limit_price, o.stop_price, tuple(sorted(o.loan_ids)))
+
+
+def loan_key(lo):
+    return (lo.id, lo.is_open, lo.borrowed_symbol, lo.borrowed_amount, tuple(sorted(lo.outstanding_interest.items())),
+            tuple(sorted(lo.paid_interest.items())))
 
 
 def build(cfg, hist):
@@ -415,6 +479,10 @@ def alphabet(cfg, level="std"):
         return alphabet_ar(cfg)
     if level == "rb":
         return alphabet_rb(cfg)
+    if level == "reidx":
+        return alphabet_reidx(cfg)
+    if level == "ar4":
+        return alphabet_ar4(cfg)
     shapes = {"small": (0, 1, 5), "std": (0, 1, 2, 3, 4, 5, 6, 9), "full": tuple(range(len(SHAPES)))}[level]
     A = [("bar", pi, si) for pi in range(npairs) for si in shapes]
     amts = {"small": (1, 3), "std": (1, 3), "full": (1, 2, 3)}[level]
@@ -478,7 +546,7 @@ def alphabet_lend(cfg):
 
 def alphabet_liq(cfg):
     """Liquidity-focused alphabet: thin bars (1, 2.5, 2.75, 10 units of liquidity at 25%), competing orders, cancels."""
-    u = unit(cfg)
+    u = unit(cfg) * cfg.get("amt_scale", 1)  # amt_scale: amounts that are also valid on a coarser base grid
     A = [("bar", 0, si) for si in cfg.get("liq_shapes", (10, 0, 9, 1, 4, 11, 12, 13))]
     A.append(("bar=", 0, 0))  # a second bar with the same timestamp
     for side in ("B", "S"):
@@ -538,4 +606,27 @@ def alphabet_rb(cfg):
          ("ord", "lim", "S", 0, str(u), "100", None, True, False), ("ord", "mkt", "S", 0, str(u), None, None, True, False),
          ("ord", "lim", "B", 0, str(u), "100", None, False, False), ("ord", "lim", "S", 0, str(u), "100", None, True, True),
          ("cancel", 0), ("repay", 0), ("bar", 0, 5)]
+    return A
+
+
+def alphabet_reidx(cfg):
+    """Tiny alphabet for 3-cycles run for many repetitions: orders that close inside a bar's walk of the open-order list
+    next to orders that stay open (resting limit) or must close in the same walk (market orders: fill or kill)."""
+    u = unit(cfg)
+    return [("bar", 0, 0), ("bar", 0, 1),
+            ("ord", "mkt", "B", 0, str(u), None, None, False, False), ("ord", "mkt", "S", 0, str(u), None, None, False, False),
+            ("ord", "lim", "B", 0, str(u), "100", None, False, False), ("ord", "lim", "B", 0, str(u), "90", None, False, False),
+            ("cancel", 0)]
+
+
+def alphabet_ar4(cfg):
+    """Auto-repay on every order type and side (no borrowing by the orders themselves), loans in both symbols, a cancel."""
+    u = unit(cfg)
+    A = [("bar", 0, 1), ("bar", 0, 0), ("loan", "BTC", str(u)), ("loan", "USD", "100")]
+    for side in ("B", "S"):
+        A.append(("ord", "mkt", side, 0, str(u), None, None, False, True))
+        A.append(("ord", "lim", side, 0, str(u), "100", None, False, True))
+        A.append(("ord", "stp", side, 0, str(u), None, "100", False, True))
+        A.append(("ord", "sl", side, 0, str(u), "90" if side == "S" else "110", "100", False, True))
+    A += [("cancel", 0), ("repay", 0)]
     return A
